@@ -298,21 +298,25 @@ func (d Decimal) Float(f *big.Float) *big.Float {
 		f.SetPrec(128)
 	}
 
+	// The significand is held exactly (113 bits fit the 128 bit temporary) so
+	// that the result is rounded only once, when it is stored in f.
+	fsig := new(big.Float).SetPrec(128)
+
 	if sig[1] == 0 {
-		f.SetUint64(sig[0])
+		fsig.SetUint64(sig[0])
 	} else {
 		bigsig := new(big.Int).SetUint64(sig[1])
 		bigsig.Lsh(bigsig, 64).Or(bigsig, new(big.Int).SetUint64(sig[0]))
 
-		f.SetInt(bigsig)
+		fsig.SetInt(bigsig)
 	}
 
 	if d.Signbit() {
-		f.Neg(f)
+		fsig.Neg(fsig)
 	}
 
 	if exp == 0 {
-		return f
+		return f.Set(fsig)
 	}
 
 	var bigexp *big.Int
@@ -325,9 +329,9 @@ func (d Decimal) Float(f *big.Float) *big.Float {
 	bigexp.Exp(big.NewInt(10), bigexp, nil)
 
 	if exp > 0 {
-		f.Mul(f, new(big.Float).SetInt(bigexp))
+		f.Mul(fsig, new(big.Float).SetInt(bigexp))
 	} else {
-		f.Quo(f, new(big.Float).SetInt(bigexp))
+		f.Quo(fsig, new(big.Float).SetInt(bigexp))
 	}
 
 	return f
